@@ -353,6 +353,72 @@ func describeOp(p *plan.SchedPlan, t, j int) string {
 	return fmt.Sprintf("task %d op %d: %s %q (opts %+v) on datum %s", t, j, op.Kind, spec.Expr, spec.Opts, d)
 }
 
+// textStable guards the text-only findings: an error text that differs from the
+// reference is reported only if the reference text itself is stable, i.e. twenty
+// fresh executions of the same op produce the same text. (The property family
+// lets the choice of *which* error is reported depend on iteration order; an
+// order source the seam does not control would otherwise look like state.)
+func textStable(p *plan.SchedPlan, t, j int, want Outcome) bool {
+	for i := 0; i < 20; i++ {
+		resetSim()
+		verifsim.BeginMain()
+		e := newEnv(p)
+		// replay the caller-side mutations that precede the op
+		for jj := 0; jj < j; jj++ {
+			if op := p.Tasks[t][jj]; op.Kind == "mutate" && op.Datum >= 0 && op.Datum < len(e.specs) {
+				e.specs[op.Datum].Muts = append(e.specs[op.Datum].Muts, op.Mut)
+			}
+		}
+		got := e.freshOp(p.Tasks[t], p.Tasks[t][j]).Out
+		verifsim.SetMode(verifsim.ModeOff)
+		if !got.Same(want, true) {
+			return false
+		}
+	}
+	return true
+}
+
+// stableSide re-executes one side of a comparison n times and reports whether it
+// produced the given outcome every time.
+func stableSide(run func() Outcome, want Outcome, n int) bool {
+	for i := 0; i < n; i++ {
+		if !run().Same(want, true) {
+			return false
+		}
+	}
+	return true
+}
+
+// diffClass compares two outcomes of the same op: 0 same, 1 both failed but in
+// different ways (error text, or panic vs error), 2 a real difference (success
+// vs failure, boolean, Execute result, Expression string).
+func diffClass(a, b Outcome) int {
+	if a.Same(b, true) {
+		return 0
+	}
+	fa, fb := a.HasErr || a.Panic != "", b.HasErr || b.Panic != ""
+	if a.Op == b.Op && a.Skip == b.Skip && fa && fb && a.Bool == b.Bool && a.Value == b.Value {
+		return 1
+	}
+	return 2
+}
+
+// significant decides whether a difference between got and the reference want
+// counts: real differences always do; failure-mode-only differences count only
+// when the reference failure mode is stable (see textStable).
+func significant(p *plan.SchedPlan, t, j int, got, want Outcome) (string, bool) {
+	switch diffClass(got, want) {
+	case 0:
+		return "", false
+	case 2:
+		return "", true
+	}
+	if textStable(p, t, j, want) {
+		return "-text", true
+	}
+	return "", false
+}
+
 // judgeHistory applies the C13 oracles: history pass vs stateless reference.
 func judgeHistory(p *plan.SchedPlan, fresh, hist *passResult) []Finding {
 	var out []Finding
@@ -362,11 +428,11 @@ func judgeHistory(p *plan.SchedPlan, fresh, hist *passResult) []Finding {
 			if !h.Ran || h.Out.Skip && f.Out.Skip {
 				continue
 			}
-			if !h.Out.Same(f.Out, true) {
-				kind := "history-dependent"
-				if h.Out.Same(f.Out, false) {
-					kind = "history-dependent-text"
+			if suffix, sig := significant(p, t, j, h.Out, f.Out); sig {
+				if suffix != "" && !stableSide(func() Outcome { return runHistory(p, nil).Recs[t][j].Out }, h.Out, 6) {
+					continue // the failure mode of the history run is itself unstable: not state
 				}
+				kind := "history-dependent" + suffix
 				out = append(out, Finding{Property: "C13", Kind: kind, Key: "C13/" + kind + "/" + op.Kind, Task: t, Op: j,
 					Detail: fmt.Sprintf("%s: after the preceding calls it returned %s, a freshly created object returns %s", describeOp(p, t, j), h.Out, f.Out)})
 			}
@@ -389,7 +455,7 @@ func judgeConc(p *plan.SchedPlan, fresh, hist, conc *passResult) []Finding {
 	histDependent := false
 	for t := range p.Tasks {
 		for j := range p.Tasks[t] {
-			if !hist.Recs[t][j].Out.Same(fresh.Recs[t][j].Out, true) {
+			if _, sig := significant(p, t, j, hist.Recs[t][j].Out, fresh.Recs[t][j].Out); sig {
 				histDependent = true
 			}
 		}
@@ -423,6 +489,11 @@ func judgeConc(p *plan.SchedPlan, fresh, hist, conc *passResult) []Finding {
 					if c.Out.Same(hist.Recs[t][j].Out, true) {
 						continue
 					}
+				}
+				// a failure-mode-only difference counts only if the failure modes of both sides are stable
+				if diffClass(c.Out, f.Out) == 1 && (!textStable(p, t, j, fresh.Recs[t][j].Out) ||
+					!stableSide(func() Outcome { return runConc(p, nil).Recs[t][j].Out }, c.Out, 4)) {
+					continue
 				}
 				out = append(out, Finding{Property: "C12", Kind: "outcome-differs", Key: "C12/outcome-differs/" + op.Kind, Task: t, Op: j,
 					Detail: fmt.Sprintf("%s: under the concurrent schedule it returned %s, made %s it returns %s", describeOp(p, t, j), c.Out, refName, f.Out)})
